@@ -417,3 +417,97 @@ def sweep_case(g: "Gen") -> dict:
         elif r < 0.9:
             nodes.append({"processor": f"rename:{rng.choice(vars_)}_values:kept"})
     return {"nodes": nodes, "ctx": ctx, "data": data}
+
+
+# --------------------------------------------------------------------------- C02: templates aimed at the static analysis
+def flow_case(g: "Gen") -> dict:
+    """Pipelines aimed at the key-flow / type-flow analysis (use-before-create, create-and-require in one node,
+    delete-then-require, delete-then-recreate, type changes across context-only nodes, sweep-published keys
+    consumed downstream, defaults shadowed by earlier producers).  Returns {"nodes": ..., "pattern": name}."""
+    rng = g.rng
+    pat = rng.choice(["use_before_create", "create_and_require_same", "delete_then_require", "delete_recreate_require",
+                      "type_across_ctx", "type_after_passthrough", "sweep_key_downstream", "default_shadowed",
+                      "from_context_chain", "plain"])
+    src = {"processor": "VSrc", "parameters": {"value": g.val()}}
+    key = rng.choice(["factor", "addend", "a", "scale", "offset"])
+    consumer = {"factor": {"processor": "VMul"}, "addend": {"processor": "VAdd"}, "a": {"processor": "VAffine"},
+                "scale": {"processor": "VScaledProbe", "context_key": g.fresh("pk")},
+                "offset": {"processor": "VOffsetProbe", "context_key": g.fresh("pk")}}[key]
+    producer = rng.choice([
+        {"processor": "VValueProbe", "context_key": key},
+        {"processor": "VScaledProbe", "context_key": key, "parameters": {"scale": g.val()}},
+        {"processor": f"rename:{g.fresh('ext')}:{key}"},
+    ])
+    filler = lambda: rng.choice([{"processor": "VAddDefault"}, {"processor": "VMulDefault"},
+                                 {"processor": "VNullSink"}, {"processor": "FloatSquareOperation"}])  # noqa: E731
+    nodes: list
+    if pat == "use_before_create":
+        nodes = [src] + [filler() for _ in range(rng.randint(0, 2))] + [consumer] + [filler() for _ in range(rng.randint(0, 1))] + [producer]
+    elif pat == "create_and_require_same":
+        k2 = rng.choice(["x", "label", key])
+        one = rng.choice([{"processor": f"template:\"v_{{{k2}}}\":{k2}"}, {"processor": f"rename:{k2}:{k2}"},
+                          {"processor": "VValueProbe", "context_key": key}])
+        nodes = [src, one] + ([consumer] if g.chance(0.5) else [])
+    elif pat == "delete_then_require":
+        nodes = [src, producer if g.chance(0.5) else filler(), {"processor": f"delete:{key}"}] + [filler() for _ in range(rng.randint(0, 1))] + [consumer]
+    elif pat == "delete_recreate_require":
+        nodes = [src, producer, {"processor": f"delete:{key}"}, producer if g.chance(0.7) else {"processor": "VValueProbe", "context_key": key}, consumer]
+    elif pat == "type_across_ctx":
+        first = rng.choice([{"processor": "VCollSrc"}, src, {"processor": "VSrc", "parameters": {"value": 1.0}, "derive": {"parameter_sweep": {
+            "parameters": {}, "variables": {"t": [1.0, 2.0, 3.0]}, "collection": "FloatDataCollection"}}}])
+        ctxnodes = [rng.choice([{"processor": "VCtxScale", "parameters": {"base": g.val()}},
+                                {"processor": f"rename:{g.fresh('ext')}:moved"},
+                                {"processor": f"template:'p_{{{g.fresh('ext')}}}':label"}]) for _ in range(rng.randint(1, 2))]
+        last = rng.choice([{"processor": "VMulDefault"}, {"processor": "VCollSum"}, {"processor": "VNullSink"},
+                           {"processor": "slice:VMulDefault:FloatDataCollection"}, {"processor": "VSrcDefault"},
+                           {"processor": "VValueProbe", "context_key": "pv"}])
+        nodes = [first] + ctxnodes + [last]
+    elif pat == "type_after_passthrough":
+        if g.chance(0.5):
+            first = [src]
+            through = rng.choice([{"processor": "VValueProbe", "context_key": "pv"}, {"processor": "VNullSink"},
+                                  {"processor": "CopyDataProbe", "context_key": "cp"}, {"processor": "FloatDataSink"}])
+            last = rng.choice([{"processor": "VCollSum"}, {"processor": "slice:VMulDefault:FloatDataCollection"},
+                               {"processor": "VSrcDefault"}, {"processor": "VMulDefault"}])
+        else:
+            first = [{"processor": "VCollSrc"}]
+            through = rng.choice([{"processor": "slice:VValueProbe:FloatDataCollection", "context_key": "pv"},
+                                  {"processor": "CopyDataProbe", "context_key": "cp"}])
+            last = rng.choice([{"processor": "VMulDefault"}, {"processor": "VNullSink"}, {"processor": "VCollSum"},
+                               {"processor": "VValueProbe", "context_key": "pz"}])
+        nodes = first + [through] + ([{"processor": "VCtxScale", "parameters": {"base": 1.0}}] if g.chance(0.3) else []) + [last]
+    elif pat == "sweep_key_downstream":
+        kind = rng.choice(["source", "op", "probe"])
+        if kind == "source":
+            sw = {"processor": "VSrcDefault", "derive": {"parameter_sweep": {"parameters": {"value": "t * 1.0"}, "variables": {"t": g.var_spec(None)}, "collection": "FloatDataCollection"}}}
+            nodes = [sw, {"processor": "VCollSum"}]
+        elif kind == "op":
+            sw = {"processor": "VMulDefault", "derive": {"parameter_sweep": {"parameters": {"factor": "t + 1.0"}, "variables": {"t": g.var_spec(None)}, "collection": "FloatDataCollection"}}}
+            nodes = [src, sw, {"processor": "VCollSum"}]
+        else:
+            sw = {"processor": "VScaledProbe", "context_key": "pl", "derive": {"parameter_sweep": {"parameters": {"scale": "t"}, "variables": {"t": g.var_spec(None)}}}}
+            nodes = [src, sw]
+        down = rng.choice([
+            {"processor": "VMul", "derive": {"parameter_sweep": {"parameters": {"factor": "q"}, "variables": {"q": {"from_context": "t_values"}}, "collection": "FloatDataCollection"}}},
+            {"processor": "template:'n_{t_values}':label"},
+            {"processor": "rename:t_values:kept"},
+        ])
+        nodes.append(down)
+    elif pat == "default_shadowed":
+        prod = rng.choice([{"processor": "VValueProbe", "context_key": "factor"}, {"processor": "rename:ext_f:factor"}])
+        nodes = [src, prod, {"processor": "VMulDefault"}] + ([{"processor": "delete:factor"}, {"processor": "VMulDefault"}] if g.chance(0.5) else [])
+    elif pat == "from_context_chain":
+        nodes = [src, {"processor": "VAdd", "derive": {"parameter_sweep": {"parameters": {"addend": "s"}, "variables": {"s": {"from_context": "seq"}}, "collection": "FloatDataCollection"}}},
+                 {"processor": "slice:VValueProbe:FloatDataCollection", "context_key": "each"},
+                 {"processor": "VCollSum"},
+                 {"processor": "VOffsetProbe", "context_key": "fin", "derive": {"parameter_sweep": {"parameters": {"offset": "e"}, "variables": {"e": {"from_context": rng.choice(["each", "s_values", "seq"])}}}}}]
+    else:
+        case = g.pipeline(fault_bias=0.1)
+        return {"nodes": case["nodes"], "pattern": "generated"}
+    if g.chance(0.15) and nodes:
+        i = rng.randrange(len(nodes))
+        n = nodes[i] = dict(nodes[i])
+        if isinstance(n.get("processor"), str) and ":" not in n["processor"] and "derive" not in n:
+            n["parameters"] = dict(n.get("parameters") or {}, **{rng.choice(["bogus", "factr"]): 1.0})
+            pat += "+unknown_param"
+    return {"nodes": [dict(n) for n in nodes], "pattern": pat}
